@@ -265,7 +265,7 @@ Call(m, a) ==
                                              ELSE <<"ok", "tuple">> \o args]
 
 ----------------------------------------------------------------------------
-IsRx(a) == a.act \in {"RxConnect", "RxConnectError", "RxDisconnect", "RxEvent", "RxAck", "RxAckDup", "RxFrame",
+IsRx(a) == a.act \in {"RxConnect", "RxConnectError", "RxDisconnect", "RxEvent", "RxAck", "RxAckDup", "RxFrame", "RxAttThenEvent",
                       "TransportError", "ServerClose"}
 
 Step(m, a) ==
@@ -279,6 +279,10 @@ Step(m, a) ==
       [] a.act = "RxFrame"        ->
             IF a.kind = "hdr" THEN RxBinHeader(m, a.ty, a.ns, a.id, a.ev, a.n)
             ELSE IF Has(m.s.binbuf, "p") THEN RxAttachment(m, a.b) ELSE Raise(m, "ValueError")
+      \* the last attachment of a binary packet and, right behind it, an EVENT: on asyncio each
+      \* frame is a task of its own and the second is processed while the first one's
+      \* (coroutine) handler or callback is suspended - the outcome is that of the sequence
+      [] a.act = "RxAttThenEvent" -> HandleEvent(RxAttachment(m, a.b), a.ns, a.id, a.ev, a.args)
       [] a.act = "Emit"           -> Emit(m, a.ns, a.ev, a.data, a.cb)
       [] a.act = "Send"           -> Emit(m, a.ns, "message", a.data, "")
       [] a.act = "Call"           -> Call(m, a)
@@ -302,6 +306,9 @@ Enabled(s, a) ==
             s.eio = "connected" /\ a.ns \in s.srvAcc /\ ~Has(s.binbuf, "p")
       [] a.act = "RxFrame" ->
             s.eio = "connected" /\ (a.kind = "hdr" => a.ns \in s.srvAcc /\ ~Has(s.binbuf, "p"))
+      [] a.act = "RxAttThenEvent" ->
+            /\ s.eio = "connected" /\ a.ns \in s.srvAcc
+            /\ Has(s.binbuf, "p") /\ Len(s.binbuf.p.atts) + 1 = s.binbuf.p.owed
       [] a.act \in {"TransportError", "ServerClose"} -> s.eio = "connected"
       [] a.act = "Emit" -> a.cb # "" => \A x \in DOMAIN s.cb : s.cb[x].next <= MaxAck
       [] a.act = "Call" -> (\A x \in DOMAIN s.cb : s.cb[x].next <= MaxAck) /\ ~Has(s.binbuf, "p")
@@ -338,7 +345,7 @@ GhostNext(s, g, a) ==
                       [g1 EXCEPT !.issued = {x \in @ : ~\E i \in 1..Len(a.during) :
                                                 a.during[i].act = "RxAck" /\ a.during[i].ns = x.ns /\ a.during[i].id = x.id}]
                 [] a.act \in {"RxAck", "RxAckDup"} -> [g1 EXCEPT !.issued = {x \in @ : ~(x.ns = a.ns /\ x.id = a.id)}]
-                [] a.act = "RxFrame" /\ a.kind = "att" /\ Has(s.binbuf, "p") ->
+                [] (a.act = "RxAttThenEvent" \/ (a.act = "RxFrame" /\ a.kind = "att")) /\ Has(s.binbuf, "p") ->
                       LET p == s.binbuf.p
                       IN  IF p.ty = "BINARY_ACK" /\ Len(p.atts) + 1 = p.owed
                           THEN [g1 EXCEPT !.issued = {x \in @ : ~(x.ns = p.ns /\ x.id = p.id)}]
